@@ -417,12 +417,8 @@ Section Producer.
          else Ok false.
 
 
-  (* ---------------------------------------------------------------- the listed defect classes
-     (known_findings.txt, property=C07), as a decidable predicate on one production:
-     [gt], [drained] = what bundle_block hands to Block::create, [b] = the block it returns *)
-  Definition Known_C07 (drained : list tx) : bool :=
-    (* type-issuance-pool *)
-    0 <? count_type TIssuance drained.
+  (* no defect class is listed for C07 any more (known_findings.txt): the last one, an
+     Issuance-typed transaction in the pool of a running chain, is closed by 716c212 *)
 
   (* ---------------------------------------------------------------- the pool *)
   Record mpool := mkM {
@@ -448,6 +444,7 @@ Section Producer.
   Definition add_transaction_if_validates (dbg : bool) (n : node) (m : mpool) (t : tx) : res mpool :=
     if producer_only t then Ok m
     else if is_type TBlockStake t && negb (t_own t) then Ok m      (* fix 9879695 *)
+    else if is_type TIssuance t && negb (v_blocks_empty (view (n_chain n))) then Ok m   (* fix 716c212 *)
     else if tx_valid (n_chain n) (n_ledger n) t then add_transaction dbg m t else Ok m.
 
   (* add_golden_ticket: keyed by target, the solution is not looked at *)
@@ -631,6 +628,7 @@ Definition revalidate (key_block : N -> N) (gp next : N) (spendable : tx -> bool
    pool and create hands part of it back *)
 Section PoolLife.
   Variable chain : Type.
+  Variable view : chain -> chainview.
   Variable tx_valid : chain -> list N -> tx -> bool.
   Variable key_block : N -> N.
   Variable gp : N.
@@ -646,7 +644,7 @@ Section PoolLife.
 
   Definition pstep (dbg : bool) (st : node chain * mpool) (e : pev) : res (node chain * mpool) :=
     match e with
-    | PIntake t => do m1 <- add_transaction_if_validates chain tx_valid dbg (fst st) (snd st) t; Ok (fst st, m1)
+    | PIntake t => do m1 <- add_transaction_if_validates chain view tx_valid dbg (fst st) (snd st) t; Ok (fst st, m1)
     | PTip n' sp cf =>
         Ok (n', with_txs (snd st) (revalidate key_block gp (next_of (n_chain _ n')) sp cf (m_txs (snd st))))
     | PShrink f => Ok (fst st, with_txs (snd st) (filter f (m_txs (snd st))))
@@ -658,8 +656,10 @@ Section PoolLife.
     | e :: r => do st1 <- pstep dbg st e; prun dbg st1 r
     end.
 
-  Definition arrives_exempt (e : pev) : bool :=
-    match e with PIntake t => window_exempt t | _ => false end.
+  (* the chain of the node is running (blocks is not empty) -- now and after every tip move *)
+  Definition started (st : node chain * mpool) : bool := negb (v_blocks_empty (view (n_chain _ (fst st)))).
+  Definition tip_started (e : pev) : bool :=
+    match e with PTip n' _ _ => negb (v_blocks_empty (view (n_chain _ n'))) | _ => true end.
 
   Definition PoolInv (st : node chain * mpool) : Prop :=
     young_pool key_block gp (next_of (n_chain _ (fst st))) (m_txs (snd st)) = true
@@ -725,7 +725,7 @@ Definition rc_gt (c : rcase) : option tx :=
 Definition rc_drained (c : rcase) : list tx :=
   match rc_stake c with
   | Some s =>
-      match add_transaction_if_validates unit (rc_validf c) true rc_node (rc_pool c) s with
+      match add_transaction_if_validates unit (rc_viewf c) (rc_validf c) true rc_node (rc_pool c) s with
       | Ok m1 => drain_in (rc_order c) (m_txs m1)
       | _ => []
       end
@@ -736,7 +736,6 @@ Definition rc_created (c : rcase) : res block :=
          true rc_node (rc_creator c) (rc_ts c) (rc_gt c) (rc_drained c).
 Definition rc_pre (c : rcase) : block * cvrec :=
   create_pre unit (rc_viewf c) (rc_cvf c) rc_node (rc_creator c) (rc_ts c) (rc_gt c) (rc_drained c).
-Definition rc_known (c : rcase) : bool := Known_C07 (rc_drained c).
 Definition rc_accepts (wn : N -> N -> N -> N -> N) (c : rcase) (b : block) : res bool :=
   node_accepts unit (rc_viewf c) (rc_cvf c) (rc_validf c) (rc_gtf c) wn
                (fun _ _ _ => rc_supply_ok c) (lookup_l (rc_mroot c)) true rc_node b.
